@@ -173,7 +173,12 @@ def planted_program(rng):
         i = fresh("Vi")
         pre = [Decl([(False, [i], Num(0))])]
         fault, code = Arith("/", Num(10), Arith("-", Num(rng.randrange(1, 4)), Var(i))), 90
-        mark = While(Logic("gt", fault, Num(0)), fillers(2) + [ExprS(AssignVar(i, Arith("+", Var(i), Num(1))))] + fillers(2))
+        body = fillers(2) + [ExprS(AssignVar(i, Arith("+", Var(i), Num(1))))] + fillers(2)
+        if rng.random() < 0.5:
+            # the passes before the faulting test leave the body through 继续循环 (on some line of the body, inside a branch)
+            body = fillers(1) + [ExprS(AssignVar(i, Arith("+", Var(i), Num(1)))),
+                                 Branch(Logic("gt", Var(i), Num(0)), fillers(1) + [Continue()], [], None)] + fillers(2)
+        mark = While(Logic("gt", fault, Num(0)), body)
     elif kind == "iter-target":
         mark = Iter(Arr([Num(1), fault]), [], [Display(Num(1))])
     elif kind == "display-arg":
